@@ -753,6 +753,11 @@ func (n *normalizer) rewriteStmt(s ast.Stmt, caller string) []edit {
 		if len(st.Rhs) == 1 && allIdents(st.Lhs) {
 			expr = st.Rhs[0]
 			wrap = st.Tok != token.DEFINE
+		} else if len(st.Lhs) == 1 && st.Tok != token.DEFINE {
+			// h(x)[k] = v, h(x).f = v, *h(x) = v: the operands of the left-hand side are evaluated first, left to right
+			if call, _ := n.leftmost(st.Lhs[0]); call != nil {
+				expr = st.Lhs[0]
+			}
 		}
 	case *ast.ReturnStmt:
 		if len(st.Results) >= 1 {
